@@ -78,6 +78,16 @@ DConvR(d, B, b, acc) == IF DIsZero(d) THEN acc
                         ELSE LET x == DDivSmall(d, b, B) IN DConvR(x.q, B, b, <<x.r>> \o acc)
 DConvert(d, B, b) == IF DIsZero(d) THEN <<0>> ELSE DConvR(d, B, b, <<>>)
 
+\* the same digits, several at a time: divide by b^k (k digits per long division) and expand each remainder.
+\* MCFormat checks DConvertFast = DConvert (lemma FastIsSlow) - DConvert stays the definition.
+ChunkDigits(b) == IF b = 2 THEN 12 ELSE IF b = 8 THEN 4 ELSE IF b = 10 THEN 4 ELSE IF b = 16 THEN 3 ELSE 1
+RECURSIVE DFixedR(_, _, _, _)
+DFixedR(n, b, k, acc) == IF k = 0 THEN acc ELSE DFixedR(n \div b, b, k - 1, <<n % b>> \o acc)    \* exactly k digits of n
+RECURSIVE DConvFastR(_, _, _, _, _, _)
+DConvFastR(d, B, b, k, m, acc) == IF DIsZero(d) THEN acc
+                                  ELSE LET x == DDivSmall(d, m, B) IN DConvFastR(x.q, B, b, k, m, DFixedR(x.r, b, k, <<>>) \o acc)
+DConvertFast(d, B, b) == LET k == ChunkDigits(b) IN DNorm(DConvFastR(d, B, b, k, Pow(b, k), <<>>))
+
 \* small naturals <-> digit sequences
 RECURSIVE DFromNatR(_, _, _)
 DFromNatR(n, B, acc) == IF n = 0 THEN acc ELSE DFromNatR(n \div B, B, <<n % B>> \o acc)
